@@ -1,6 +1,7 @@
 package wire
 
 import (
+	"bytes"
 	"fmt"
 	"io"
 	"testing"
@@ -217,7 +218,7 @@ func since2015(tm time.Time) uint64 {
 // TestC06Writers: keyed writers emit frames that verify by the formula.
 func TestC06Writers(t *testing.T) {
 	rec := evid.New(t, "C06", "frame.Writer.WriteMessage with OutKey and streamwriter.Writer with Key write generated message sequences; each emitted frame is parsed by the reference: signed flag, configured link id, timestamp within the wall-clock bracket of the call (10us units since 2015-01-01 UTC), signature == SHA-256 formula; non-trivial = every case; distinct by hash of emitted bytes")
-	rec.Require("frame.Writer", "streamwriter.Writer")
+	rec.Require("frame.Writer", "streamwriter.Writer", "frame.ReadWriter")
 	dpool := pool(t)
 	evid.Check(t, rec, evid.N(6000, 30000), func(t *rapid.T) {
 		key := drawKey(t, "key")
@@ -226,9 +227,19 @@ func TestC06Writers(t *testing.T) {
 		sys := byte(rapid.IntRange(1, 255).Draw(t, "sys"))
 		comp := gen.Byte().Draw(t, "comp")
 		w := &recWriter{}
-		useStream := rapid.Bool().Draw(t, "streamwriter")
+		kind := rapid.SampledFrom([]string{"streamwriter.Writer", "frame.Writer", "frame.ReadWriter"}).Draw(t, "writer_kind")
+		useStream := kind == "streamwriter.Writer"
 		var write func(m message.Message) error
-		if useStream {
+		if kind == "frame.ReadWriter" {
+			rw := &frame.ReadWriter{ByteReadWriter: struct {
+				io.Reader
+				io.Writer
+			}{bytes.NewReader(nil), w}, DialectRW: di.rw, OutVersion: frame.V2, OutSystemID: sys, OutComponentID: comp, OutSignatureLinkID: link, OutKey: keyOf(&key)}
+			if err := rw.Initialize(); err != nil {
+				t.Fatalf("BROKEN: %v", err)
+			}
+			write = rw.WriteMessage
+		} else if useStream {
 			fw := &frame.Writer{ByteWriter: w, DialectRW: di.rw}
 			if err := fw.Initialize(); err != nil {
 				t.Fatalf("BROKEN: %v", err)
@@ -283,10 +294,7 @@ func TestC06Writers(t *testing.T) {
 			if p.Checksum != p.ChecksumFor(lay.CRCExtra) {
 				t.Fatalf("checksum %#04x wrong for %s", p.Checksum, lay.MsgName)
 			}
-			cls := "frame.Writer"
-			if useStream {
-				cls = "streamwriter.Writer"
-			}
+			cls := kind
 			rec.Case(true, evid.Hash(out), cls)
 			if rec.WantSample(cls) {
 				rec.Sample(cls, map[string]interface{}{"message": lay.MsgName, "bytes": fmt.Sprintf("%x", out)})
